@@ -123,6 +123,9 @@ type Options struct {
 	// blocked or ended (0 = preemption bounding as in CHESS: such switches are free; 1 = delay bounding: every
 	// departure from the default deterministic schedule costs one deviation).
 	ForcedSwitchCost int
+	// Exhausted, when set, tells that no deviation can be afforded any more: a pure scheduling point (Yield) then continues
+	// the running goroutine without creating a choice point — every alternative there costs at least one deviation.
+	Exhausted func() bool
 }
 
 // Result is the outcome of one execution.
@@ -1024,6 +1027,14 @@ func Len(c any, site string) int {
 func Yield(site string) {
 	s, g := enter()
 	if s == nil {
+		return
+	}
+	if s.opts.Exhausted != nil && s.opts.Exhausted() {
+		s.res.Steps++
+		if s.res.Steps > s.opts.MaxSteps {
+			s.finish("steplimit", fmt.Sprintf("more than %d scheduling steps", s.opts.MaxSteps))
+			runtime.Goexit()
+		}
 		return
 	}
 	s.touchSeq(g, site)
